@@ -166,7 +166,7 @@ func runC17Case(sub string, seed uint64, keys map[string]struct{}) (evals int64)
 		c.Net = "unix"
 	}
 	c.ET = r.Bool()
-	el := &engineLife{cfg: c, mon: mon, addr: listen, booted: make(chan struct{}), done: make(chan struct{})}
+	el := &engineLife{cfg: c, mon: mon, addr: listen, booted: make(chan struct{}), done: make(chan struct{}), keptDup: -1}
 	mon.life = el
 	go func() {
 		el.runErr = gnet.Run(mon, listen, c.options()...)
